@@ -170,6 +170,8 @@ class RunCase(object):
             lines.append('#$ data_values_nest_level = %d' % self.pragma)
         lines.append('# results of ${%length} and ${001001} are not used here')
         lines.append('note = "${%edition} is not a query here # nor a comment"')
+        # a run starts from the bound names only: nothing an earlier run of the same runner assigned is still there
+        lines.append("left_over = 'assigned_by_a_run' in globals() or 'assigned_by_a_run' in dir()")
         for i, e in enumerate(self.exprs):
             emb = '${%s%s%s}' % (' ' if i % 2 else '', e, '  ' if i % 3 == 0 else '')
             # the names are bound for the whole script, nested scopes included
@@ -186,6 +188,7 @@ class RunCase(object):
         if self.dup is not None and self.exprs:
             lines.append('again = ${ %s }' % self.exprs[self.dup % len(self.exprs)])
         lines.append("tail = '${%length}'")
+        lines.append('assigned_by_a_run = 1')
         return '\n'.join(lines) + '\n'
 
     def key(self):
@@ -353,6 +356,8 @@ def check_run(rc):
                 out.fail(what + 'the message / file name variables are not visible inside a function of the script', script=script)
             if v.get('note') != '${%edition} is not a query here # nor a comment' or v.get('tail') != '${%length}':
                 out.fail(what + 'an embedded query inside a string literal was replaced', script=script, note=v.get('note'), tail=v.get('tail'))
+            if v.get('left_over') is not False:
+                out.fail(what + 'a name that the script assigned during an earlier run is still bound when the next run starts', script=script)
             for i, e in enumerate(rc.exprs):
                 want = l4m[e] if e.lstrip().startswith('%') else flatten_level(l4m[e], level)
                 got = v.get('r%d' % i)
@@ -383,6 +388,49 @@ def check_run(rc):
                     return out.fail(what + 'running the script raised %s@%s' % (r2.exc_type, r2.frame), script=script, error=r2.msg)
                 if not verify(r2.value, m, l4m, what):
                     return out
+    return out
+
+
+# ---- the script command -----------------------------------------------------------------------------------
+def check_cli(rc):
+    """the same scripts through `pybufrkit script`: given as argument or with -f, the level by -n, by the pragma line or by
+    neither; the script prints its variables"""
+    import os
+    from vlib import cli
+    out = Outcome()
+    out.classes = ['cli']
+    out.nontrivial = True
+    o = sut.call(decoder().process, rc.case.bytes)
+    if not o.ok:
+        raise Reject('message does not decode')
+    msg = o.value
+    l4 = {}
+    for e in rc.exprs:
+        q = sut.call(_MQ.query, msg, e) if e.lstrip().startswith('%') else sut.call(lambda: _DQ.query(msg, e).all_values())
+        if not q.ok:
+            raise Reject('expression not evaluable on this message (%s)' % q.exc_type)
+        l4[e] = q.value
+    eff = rc.arg if rc.arg is not None else (rc.pragma if rc.pragma is not None else 1)
+    out.classes.append('cli_level_by_%s' % ('argument' if rc.arg is not None else 'pragma' if rc.pragma is not None else 'default'))
+    script = rc.script() + 'print(repr([%s]))\n' % ', '.join('r%d' % i for i in range(len(rc.exprs)))
+    want = repr([l4[e] if e.lstrip().startswith('%') else flatten_level(l4[e], eff) for e in rc.exprs])
+    with cli.scratch('c18') as d:
+        path = os.path.join(d, 'm.bufr')
+        with open(path, 'wb') as f:
+            f.write(rc.case.bytes)
+        spath = os.path.join(d, 'script.py')
+        with open(spath, 'w') as f:
+            f.write(script)
+        level = ['-n', str(rc.arg)] if rc.arg is not None else []
+        for how, argv in (('as argument', ['script'] + level + [script, path]), ('from a file', ['script', '-f'] + level + [spath, path]),
+                          ('two files', ['script'] + level + [script, path, path])):
+            r, so, se = cli.run_main(argv)
+            lines = [ln for ln in so.splitlines() if ln.startswith('[')]
+            if not r.ok:
+                out.fail('script command raised %s@%s (%s)' % (r.exc_type, r.frame, how), script=script, error=r.msg)
+            elif lines != [want] * (2 if how == 'two files' else 1):
+                out.fail('script command: the variables do not hold the query results at the effective nesting level (%s)' % how,
+                         script=script, argument=rc.arg, pragma=rc.pragma, got=lines[:2], expected=want)
     return out
 
 
@@ -460,11 +508,13 @@ def run(tier, seed):
     opts = c16.gen_opts(tier)
     n = 600 if tier == 'quick' else 10000
     runner.run_generated(rep, lambda ch: gen_run(ch, opts), check_run, n, workers, stage='execution')
+    runner.run_generated(rep, lambda ch: gen_run(ch, opts), check_cli, 60 if tier == 'quick' else 2500, 4 if tier == 'quick' else workers,
+                         stage='command line')
     if tier == 'thorough':
         fuzz.run_atheris(rep, 'checks.c18', 'fuzz_one', runs=1500000, shards=4, seeds=[s.encode() for s in SEEDS], tag='preprocessor',
                          max_len=64, empty_corpus_shards=2)
     rep.required_classes = ['embed_in_literal_or_comment', 'repeated_expression', 'padded_expression', 'level_0', 'level_1', 'level_2',
-                            'level_4', 'by_argument', 'by_pragma', 'argument_beats_pragma', 'metadata_only', 'needs_data']
+                            'level_4', 'by_argument', 'by_pragma', 'cli_level_by_pragma', 'cli_level_by_argument', 'one_runner_several_messages', 'argument_beats_pragma', 'metadata_only', 'needs_data']
     return rep.finish()
 
 
